@@ -137,7 +137,8 @@ type EnvOpt struct {
 	Kinds []string
 }
 
-var envKindAll = []string{"deposit", "deposit", "reescrow", "ftf_pause", "ftf_unpause", "blacklist", "unblacklist", "burn_limit"}
+var envKindAll = []string{"deposit", "deposit", "deposit", "reescrow", "reescrow", "ftf_pause", "ftf_unpause", "blacklist", "unblacklist", "burn_limit",
+	"cctp_pause_burn", "cctp_unpause_burn", "cctp_pause_msgs", "cctp_unpause_msgs", "hyp_unenroll", "hyp_enroll"}
 
 func GenEnv(t *rapid.T, opt EnvOpt) Env {
 	kinds := opt.Kinds
@@ -170,6 +171,9 @@ func GenEnv(t *rapid.T, opt EnvOpt) Env {
 		}
 	case "burn_limit":
 		e.Amount = pick(t, "env/limit", []string{"1000000000", "1000", "1"})
+	case "hyp_unenroll", "hyp_enroll":
+		e.Denom = pick(t, "env/hyp/denom", world.HypDenoms)
+		e.Amount = fmt.Sprint(pick(t, "env/hyp/domain", world.HypDomains))
 	}
 	return e
 }
